@@ -21,6 +21,9 @@ HISTORY = [
     OP("exec", "noexec", True), OP("exec", "dir"), OP("exec", "emptyargs"), OP("exec", "run", False, "fail"), OP("exec", "run", True, "fail"),
     OP("exec", "sleep", False, "ok", "running"), OP("exec", "sleep", True, "none", "pre"), OP("exec", "runslow", False, "none", "race"),
     OP("exec", "term"), OP("exec", "hugearg"), OP("open", "longbatch"), OP("reset"),
+    # descriptors that travel with the request (executable, cgroup): released in the container after each run
+    OP("exec", "fdexec", False, "ok"), OP("exec", "fdexec", True), OP("exec", "cgexec", False, "ok"), OP("exec", "cgexec", True),
+    OP("exec", "fdexec", False, "fail"), OP("exec", "cgexec", True, "fail"),
 ]
 
 
